@@ -1,12 +1,14 @@
 -------------------------------- MODULE Api --------------------------------
 (* The op table of the cgmath abstract machine: one contract Rel per public *)
-(* entry point.  Rel(op, k, a, r): calling `op` at scalar kind k on the     *)
-(* argument values a may return r.  Functional ops: r = Fn(...).            *)
-EXTENDS ApiLin
+(* entry point.  Rel(op, k, f, a, r): calling `op` (operand form f) at scalar  *)
+(* kind k on the argument values a may return r.  Functional ops: r = Fn(...).            *)
+EXTENDS ApiGeo
 
-Rel(op, k, a, r) ==
+Rel(op, k, f, a, r) ==
   IF op \in LinRelOps THEN LinRel(op, k, a, r)
-  ELSE LET e == LinFn(op, k, a) IN
-       IF e # Undef THEN Same(r, e)
-       ELSE FALSE
+  ELSE LET e1 == LinFn(op, k, a) IN
+       IF e1 # Undef THEN Same(r, e1)
+       ELSE LET e2 == GeoFn(op, k, a) IN
+            IF e2 # Undef THEN Same(r, e2)
+            ELSE GeoRel(op, k, f, a, r)
 =============================================================================
